@@ -193,6 +193,65 @@ func c14Dirs(in string) eng.Res {
 	return eng.OK("icon:"+want, true)
 }
 
+// ---- chains: index -> mid -> lib, the middle file extends what it imported -----------------------------------------
+
+// c14Chain: input JSON {Outer, Inner, Lib, Mid}: lib.d2 = Lib; mid.d2 = <Inner import of lib> + Mid statements;
+// index.d2 = <Outer import of mid>. The twin is the text with both imports written out in place (the bodies have no globs,
+// variables or file-level constructs, so textual inlining is exact).
+func c14Chain(in string) eng.Res {
+	var c struct {
+		Outer, Inner string
+		Lib, Mid     []string
+	}
+	if err := json.Unmarshal([]byte(in), &c); err != nil {
+		return eng.Bad("harness-error", err.Error())
+	}
+	inline := func(form, name string, body []string) []string {
+		b := strings.Join(body, "\n")
+		switch form {
+		case "...@%s":
+			return body
+		case "k: @%s":
+			return []string{"k: {\n" + b + "\n}"}
+		case "k: {...@%s}":
+			return []string{"k: {\n" + b + "\n}"}
+		case "k.j: @%s":
+			return []string{"k.j: {\n" + b + "\n}"}
+		}
+		panic("harness: form " + form)
+	}
+	// mid statements are written relative to where lib's content lands in mid: prefix "k." / "k.j." for the mounted forms
+	prefix := map[string]string{"...@%s": "", "k: @%s": "k.", "k: {...@%s}": "k.", "k.j: @%s": "k.j."}[c.Inner]
+	var midStmts []string
+	for _, m := range c.Mid {
+		midStmts = append(midStmts, strings.ReplaceAll(m, "§", prefix))
+	}
+	midBody := append(append([]string{}, fmt.Sprintf(c.Inner, "lib")), midStmts...)
+	files := Files{"lib.d2": strings.Join(c.Lib, "\n") + "\n", "mid.d2": strings.Join(midBody, "\n") + "\n"}
+	prog := fmt.Sprintf(c.Outer, "mid") + "\n"
+	midInlined := append(inline(c.Inner, "lib", c.Lib), midStmts...)
+	twin := strings.Join(inline(c.Outer, "mid", midInlined), "\n") + "\n"
+	g1, c1, err1 := CompileFS("index.d2", prog, files)
+	g2, c2, err2 := CompileFS("index.d2", twin, Files{})
+	if err2 != nil {
+		return eng.OK("twin-rejected", false)
+	}
+	if err1 != nil {
+		return eng.Bad("import-chain-rejected-but-inlined-content-accepted:"+msgKind(firstErr(err1)), fmt.Sprintf("files %v\nprogram %q: %v\ntwin %q compiles", files, prog, err1))
+	}
+	o := CanonOpts{SortObjects: true, SortChildren: true}
+	a, b := CanonWith(g1, c1, o), CanonWith(g2, c2, o)
+	if a != b {
+		paths := JSONDiffPaths(a, b)
+		p := "?"
+		if len(paths) > 0 {
+			p = paths[0]
+		}
+		return eng.Bad("chain-differs-from-inlined-twin:"+p, fmt.Sprintf("files %v\nprogram %q\ntwin    %q\ndiffering fields %v\n%s", files, prog, twin, paths, FirstDiff(a, b)))
+	}
+	return eng.OK(fmt.Sprintf("chain o%d e%d", len(g1.Objects), len(g1.Edges)), true)
+}
+
 func pathJoin(dir, rel string) string {
 	parts := strings.Split(dir+"/"+rel, "/")
 	var out []string
@@ -272,9 +331,9 @@ func c14Cycle(in string) eng.Res {
 func init() {
 	eng.Register(&eng.Check{
 		ID: "C14", Level: "exploration",
-		Rule: "equivalence: every imported file body of ≤2 (quick) / ≤3 (thorough) statements over the 17-statement fragment F14 (objects, labels, nesting, connections, case variant, *, ** and *** globs, relative icon, class, vars, layer, board link) × import spelling {x, ./x, x.d2, d/x} × placement {spread import as first statement of the file followed by one of 6 importer statements; `k: {...@x}`; `k: @x`}, compared with the inlined twin (imported * / ** globs expanded on the imported file's own objects, relative icon rebased, positions ignored) through the real compiler; cycles: every assignment of one import statement of 7 forms (or none) pointing at any file to each of 3 (quick) / 4 (thorough) files — all cycle lengths 1..n, reachable and unreachable — ; a three-file chain across directories (index → sub/a → ../shared/b, 5×5 import forms × 6 icon spellings) must rebase a relative icon onto the imported file's directory; cycles must report a cyclic-import error exactly when an independent reachability walk finds the chain returning to a file being imported",
+		Rule: "equivalence: every imported file body of ≤2 (quick) / ≤3 (thorough) statements over the 17-statement fragment F14 (objects, labels, nesting, connections, case variant, *, ** and *** globs, relative icon, class, vars, layer, board link) × import spelling {x, ./x, x.d2, d/x} × placement {spread import as first statement of the file followed by one of 6 importer statements; `k: {...@x}`; `k: @x`}, compared with the inlined twin (imported * / ** globs expanded on the imported file's own objects, relative icon rebased, positions ignored) through the real compiler; cycles: every assignment of one import statement of 7 forms (or none) pointing at any file to each of 3 (quick) / 4 (thorough) files — all cycle lengths 1..n, reachable and unreachable — ; a three-file chain across directories (index → sub/a → ../shared/b, 5×5 import forms × 6 icon spellings) must rebase a relative icon onto the imported file's directory; three-file chains index → mid → lib (4×4 import forms × 4 library bodies × 8 ways in which the middle file re-opens, extends or connects what it imported) compared with the text in which both imports are written out; cycles must report a cyclic-import error exactly when an independent reachability walk finds the chain returning to a file being imported",
 		Assumptions: []string{"only the two placements the property defines are compared (top of file; sole content of a map)", "board blocks and board links of the imported file are compared only in the top-of-file placement"},
-		Oracles: map[string]eng.Oracle{"inline": c14Oracle, "cycle": c14Cycle, "dirs": c14Dirs},
+		Oracles: map[string]eng.Oracle{"inline": c14Oracle, "cycle": c14Cycle, "dirs": c14Dirs, "chain": c14Chain},
 		Run: func(w *eng.W) {
 			var alpha []string
 			for _, s := range f14 {
@@ -331,6 +390,22 @@ func init() {
 						for _, ic := range icons {
 							b, _ := json.Marshal(map[string]string{"Outer": o, "Inner": i, "Icon": ic})
 							w.Eval("dirs", string(b))
+						}
+					}
+				}
+			})
+			w.Phase("three-file-chains", func() {
+				forms := []string{"...@%s", "k: @%s", "k: {...@%s}", "k.j: @%s"}
+				libs := [][]string{{"c: {a}"}, {"c: lc {a}", "d"}, {"c.a -> d"}, {"c: {a: {b}}", "c.a.b -> c"}}
+				// § = the path prefix under which lib's content sits inside mid
+				mids := [][]string{{}, {"§c: {z}"}, {"§c.z"}, {"§c: over"}, {"§c: {a: {y}}"}, {"§c.a -> n"}, {"§c: {z}", "§c.z -> §c.a"}, {"n", "§c: {style.opacity: 0.4}"}}
+				for _, o := range forms {
+					for _, i := range forms {
+						for _, l := range libs {
+							for _, m := range mids {
+								b, _ := json.Marshal(map[string]any{"Outer": o, "Inner": i, "Lib": l, "Mid": m})
+								w.Eval("chain", string(b))
+							}
 						}
 					}
 				}
